@@ -340,7 +340,7 @@ def doOp (a : Acc) (idx : Nat) (op : Json) : R Acc := do
     let name ← getStr op "name"
     match s.dsid.lookup name with
     | none => return a
-    | some ds => return { a with s := { s with dsid := s.dsid.filter (·.1 != name), db := { s.db with deletedDs := ds :: s.db.deletedDs } } }
+    | some ds => return { a with s := { s with dsid := s.dsid.filter (·.1 != name), db := markDeleted s.db ds } }
   | "renameDs" =>
     if !okRc then return a
     let name ← getStr op "name"
@@ -369,13 +369,7 @@ def doOp (a : Acc) (idx : Nat) (op : Json) : R Acc := do
     match s.dsid.lookup (← getStr op "ds") with
     | some ds => return { a with s := { s with db := compact s.db ds } }
     | none => return a
-  | "gc" =>
-    let dd := s.db.deletedDs
-    return { a with s := { s with db := { s.db with
-      versions := s.db.versions.filter (fun v => !dd.contains v.1.ds),
-      changes := s.db.changes.filter (fun c => !dd.contains c.1),
-      latest := s.db.latest.filter (fun l => !dd.contains l.1.1),
-      refs := s.db.refs.filter (fun r => !dd.contains r.ds) } } }
+  | "gc" => return { a with s := { s with db := gc s.db } }
   | "reopen" => return a
   | "q" => let _ := idx; doQuery a op
   | _ => throw s!"bad op {kind}"
